@@ -22,6 +22,7 @@ func knownExclusions() map[string]bool {
 		"continue-with-yielding-post": true,
 		"break-after-yield-in-switch": true,
 		"array-range-live-not-copied": true,
+		"cogen-external-test-eta-not-idempotent": true,
 	}
 }
 
